@@ -34,6 +34,18 @@ CHECKS = {
         ref="DESIGN.md section 6 C02",
         note="Validity for a schema is decided by gqlparser (trusted); ownership/coverage/helper/variable accounting by the specification on abstract projections produced by the harness (fakesvc.AbsSel/Facts). Scalar-valued arguments only.",
         technique="TLA+ contract (PlanOK/ReqOK) evaluated by TLC on recorded translations (trace validation) + negative controls"),
+    "C12": dict(
+        category="model_checking",
+        text="FederationAbs!QCall allows a batched call (Queryer.Query) to a service only while the number of calls to it is below the number of levels of the OBSERVED plan at which it appears, and only without two identical id-only lookups; TLC validates the calls recorded from the real executor on 22k (quick) / 500k (thorough) generated operation runs whose data contains repeated entities in lists and root lists of 20..220 entries, so a second call at one level (N+1) or a duplicated lookup has no enabled action. C01 on the same traces guarantees that de-duplicated answers are stitched everywhere.",
+        ref="DESIGN.md section 6 C12",
+        note="Levels come from the recorded plan; a call is one Queryer.Query on the recording wrapper around the real MultiOpQueryer.",
+        technique="TLA+ contract (QCall) evaluated by TLC on recorded executions (trace validation) + negative controls"),
+    "C06": dict(
+        category="model_checking",
+        text="FederationAbs (Enforce=C06): a `mutation` request is only sent for a mutation operation and only to a service declaring every root field it carries; all other requests of the operation are node queries; at the response every client-selected root field (after @skip/@include) was carried by exactly one request and never by more than one. TLC validates the requests logged by the receiving fake services for 24k (quick) / 500k (thorough) generated mutation runs under batch sizes 1/2/3000, caching planner, id hint, node-hiding merger, and the same mutation sent twice in a row.",
+        ref="DESIGN.md section 6 C06",
+        note="Fault-free runs here; failures in sibling/child steps are exercised by C09's fault strata with the same C06 predicate enforced.",
+        technique="TLA+ contract evaluated by TLC on recorded executions (trace validation) + negative controls"),
 }
 
 PENDING = "not claimed yet: specification and binding for this property are still being built (DESIGN.md section 10 build order)"
